@@ -300,7 +300,16 @@ func (f *Frame) convert(st *State, v Val, to types.Type, pos token.Pos) Val {
 	// interface conversions and the rest: opaque function of the source
 	if ts == "Ifc" || ts == "Err" {
 		fn := f.c.uf("box_"+sanitize(fs)+"_"+ts, []string{fs}, ts)
-		return Val{T: fmt.Sprintf("(%s %s)", fn, v.T), Ty: to}
+		r := Val{T: fmt.Sprintf("(%s %s)", fn, v.T), Ty: to}
+		if fs != "Ifc" && fs != "Err" {
+			// an interface holding a concrete value (even a nil pointer) is non-nil
+			nilc := "ifc_nil"
+			if ts == "Err" {
+				nilc = "err_nil"
+			}
+			st.assume(fmt.Sprintf("(not (= %s %s))", r.T, nilc))
+		}
+		return r
 	}
 	if isInteger(to) {
 		// float -> int etc
@@ -711,10 +720,14 @@ func (f *Frame) fieldOf(v Val, name string, n ast.Node) Val {
 	if ss == nil {
 		f.unsupported(n, "field %s of non-struct %v", name, t)
 	}
+	f.c.sorts.markUsed(ss.Sort, name)
 	for _, fl := range ss.Fields {
 		if fl.Name == name {
 			return Val{T: selectField(fl.Sel, ss, v.T), Ty: f.typ(fl.Type)}
 		}
+	}
+	if ss.Pruned {
+		panic(needField{ss.Sort, name})
 	}
 	f.unsupported(n, "no field %s in %v", name, t)
 	return Val{}
@@ -793,6 +806,7 @@ func (f *Frame) withField(v Val, name string, nv Val, n ast.Node) Val {
 	}
 	var parts []string
 	found := false
+	f.c.sorts.markUsed(ss.Sort, name)
 	for _, fl := range ss.Fields {
 		if fl.Name == name {
 			parts = append(parts, nv.T)
@@ -800,6 +814,9 @@ func (f *Frame) withField(v Val, name string, nv Val, n ast.Node) Val {
 		} else {
 			parts = append(parts, selectField(fl.Sel, ss, v.T))
 		}
+	}
+	if !found && ss.Pruned {
+		panic(needField{ss.Sort, name})
 	}
 	if !found {
 		f.unsupported(n, "no field %s", name)
@@ -837,7 +854,11 @@ func (f *Frame) evalSelector(st *State, x *ast.SelectorExpr) Val {
 		return f.havoc(st, "mv", f.typeOf(x))
 	}
 	v := f.eval(st, x.X)
-	return f.selectPath(st, v, sel, x)
+	r := f.selectPath(st, v, sel, x)
+	if len(r.T) > 80 {
+		return f.name("f", r)
+	}
+	return r
 }
 
 // selectPath follows a (possibly embedded) field selection path from v.
@@ -905,7 +926,7 @@ func (f *Frame) indexVal(st *State, base, i Val, n ast.Node, check bool) Val {
 			f.panicSite(st, "index", fmt.Sprintf("(and (<= 0 %s) (< %s %d))", i.T, i.T, u.Len()), pos)
 		}
 		et := f.typ(u.Elem())
-		r := f.name("e", Val{T: fmt.Sprintf("(select %s %s)", base.T, i.T), Ty: et})
+		r := f.name("e", Val{T: fmt.Sprintf("(select %s %s)", f.arrTerm(base), i.T), Ty: et})
 		for _, inv := range f.c.sorts.TypeInv(r.T, et, 0) {
 			st.assume(inv)
 		}
@@ -933,6 +954,25 @@ func (f *Frame) indexVal(st *State, base, i Val, n ast.Node, check bool) Val {
 	}
 	f.unsupported(n, "index into %v", base.Ty)
 	return Val{}
+}
+
+// arrTerm gives the (Array Int E) term holding the elements of an array-typed value.
+func (f *Frame) arrTerm(v Val) string {
+	if _, ok := baLen(v.Ty); ok {
+		return fmt.Sprintf("(%s.bytes %s)", f.c.sorts.SortOf(v.Ty), v.T)
+	}
+	return v.T
+}
+
+// fromArr builds an array-typed value of type t from an (Array Int E) term.
+func (f *Frame) fromArr(st *State, arr string, t types.Type) Val {
+	if _, ok := baLen(t); ok {
+		so := f.c.sorts.SortOf(t)
+		n := f.c.fresh("ba", so)
+		st.assume(fmt.Sprintf("(= (%s.bytes %s) %s)", so, n, arr))
+		return Val{T: n, Ty: t}
+	}
+	return Val{T: arr, Ty: t}
 }
 
 func (f *Frame) sliceLen(v Val) string {
@@ -995,7 +1035,7 @@ func (f *Frame) sliceOf(st *State, base Val, lo, hi, mx *Val, n ast.Node) Val {
 			hiT = hi.T
 		}
 		f.panicSite(st, "slice", fmt.Sprintf("(and (<= 0 %s) (<= %s %s) (<= %s %d))", loT, loT, hiT, hiT, u.Len()), pos)
-		r := fmt.Sprintf("(mk_%s %s %s (- %s %s) (- %d %s))", so, base.T, loT, hiT, loT, u.Len(), loT)
+		r := fmt.Sprintf("(mk_%s %s %s (- %s %s) (- %d %s))", so, f.arrTerm(base), loT, hiT, loT, u.Len(), loT)
 		return f.name("sl", Val{T: r, Ty: f.typ(st2)})
 	case *types.Basic:
 		if u.Info()&types.IsString != 0 {
@@ -1025,17 +1065,26 @@ func (f *Frame) evalCompositeLit(st *State, x *ast.CompositeLit) Val {
 			vals[i] = f.c.sorts.Zero(f.typ(fl.Type))
 		}
 		for i, el := range x.Elts {
+			name := ""
+			var ve ast.Expr = el
 			if kv, ok := el.(*ast.KeyValueExpr); ok {
-				name := kv.Key.(*ast.Ident).Name
-				for j, fl := range ss.Fields {
-					if fl.Name == name {
-						v := f.evalElt(st, kv.Value, f.typ(fl.Type))
-						vals[j] = v.T
-					}
-				}
+				name = kv.Key.(*ast.Ident).Name
+				ve = kv.Value
 			} else {
-				v := f.evalElt(st, el, f.typ(ss.Fields[i].Type))
-				vals[i] = v.T
+				name = u.Field(i).Name()
+			}
+			// fields set by a literal are kept (a dropped non-zero field would make `rest` unknown)
+			f.c.sorts.markUsed(ss.Sort, name)
+			found := false
+			for j, fl := range ss.Fields {
+				if fl.Name == name {
+					v := f.evalElt(st, ve, f.typ(fl.Type))
+					vals[j] = v.T
+					found = true
+				}
+			}
+			if !found && ss.Pruned {
+				panic(needField{ss.Sort, name})
 			}
 		}
 		if len(vals) == 0 {
@@ -1076,6 +1125,12 @@ func (f *Frame) evalCompositeLit(st *State, x *ast.CompositeLit) Val {
 		if isSlice {
 			so := f.c.sorts.SortOf(t)
 			return f.name("lit", Val{T: fmt.Sprintf("(mk_%s %s 0 %d %d)", so, arr, maxIdx, maxIdx), Ty: t})
+		}
+		if _, ok := baLen(t); ok {
+			if len(x.Elts) == 0 {
+				return f.zero(t)
+			}
+			return f.fromArr(st, arr, t)
 		}
 		return f.name("lit", Val{T: arr, Ty: t})
 	case *types.Map:
